@@ -340,9 +340,9 @@ func prefixKeyForRecipientAndHeight(recipient Address, height int64) []byte {
 func PrefixIterator(db dbm.DB, prefix []byte, order string) (dbm.Iterator, error) {
 	switch order {
 	case SortAscending:
-		return db.ReverseIterator(prefix, endKey(prefix))
-	case SortDescending:
 		return db.Iterator(prefix, endKey(prefix))
+	case SortDescending:
+		return db.ReverseIterator(prefix, endKey(prefix))
 	default:
 		return nil, fmt.Errorf("sorting order: %v not supported", order)
 	}
